@@ -52,6 +52,7 @@ func Run(k *report.Check) {
 	k.Explore("crash-after-each-storage-op/local-directory", mc.Config{Workers: 4}, seqParams{starts: []uint64{0, 1, 2, 3, 61, 62, 63, 64, 4094, 1<<32 - 2}, n: 3, real: true}, seqBody)
 	k.Explore("restart/any-three-snapshot-files", mc.Config{}, nil, subsetBody)
 	bound := k.Pick(4, 5)
+	k.ExploreSched(fmt.Sprintf("overlapping-publication/with-savepoint,delays<=%d", bound), mc.Config{Bound: bound, Deadline: k.Within(0.3)}, overlapParams{n: 2, savepoint: true}, overlapBody)
 	k.ExploreSched(fmt.Sprintf("overlapping-publication/delays<=%d", bound), mc.Config{Bound: bound}, overlapParams{n: 3}, overlapBody)
 }
 
@@ -151,8 +152,14 @@ func checkCrash(c *mc.Ctx, files map[string][]byte, after string) {
 }
 
 // drive completes one checkpoint on the store and returns its id.
-func drive(store *snapshots.Store) uint64 {
-	id, err := store.CreateCheckpoint([]string{"o1"}, []string{"s1"})
+func drive(store *snapshots.Store, savepoint bool) uint64 {
+	var id uint64
+	var err error
+	if savepoint {
+		id, _, err = store.CreateSavepoint([]string{"o1"}, []string{"s1"})
+	} else {
+		id, err = store.CreateCheckpoint([]string{"o1"}, []string{"s1"})
+	}
 	if err != nil {
 		panic(fmt.Sprintf("mc: harness: CreateCheckpoint: %v", err))
 	}
@@ -216,7 +223,7 @@ func seqBody(c *mc.Ctx) {
 	checkCrash(c, snapshotFiles(), "start")
 	prev := start
 	for i := 0; i < p.n; i++ {
-		id := drive(store)
+		id := drive(store, false)
 		if id <= prev {
 			c.FailSig("id-not-increasing", "checkpoint id %d follows %d", id, prev)
 		}
@@ -264,13 +271,21 @@ func mustSnap(id uint64) []byte {
 	return data
 }
 
-type overlapParams struct{ n int }
+type overlapParams struct {
+	n         int
+	savepoint bool // one of the checkpoints is started by CreateSavepoint
+}
 
 func overlapBody(c *mc.Ctx) {
 	p := c.Param.(overlapParams)
 	start := []uint64{0, 5, 62}[c.Choose(3)]
-	c.Op("[first new checkpoint id %d, %d checkpoints created back to back]", start+1, p.n)
+	spAt := -1
+	if p.savepoint {
+		spAt = c.Choose(p.n)
+	}
+	c.Op("[first new checkpoint id %d, %d checkpoints created back to back, savepoint: %d]", start+1, p.n, spAt)
 	loc := jobh.NewMemLoc()
+	loc.Files["o1/checkpoints"] = []byte(`{"checkpoints":[{"id":1,"wals":[],"levels":[]}]}`)
 	if start > 0 {
 		loc.Files[snapPath(start)] = mustSnap(start)
 	}
@@ -292,7 +307,7 @@ func overlapBody(c *mc.Ctx) {
 	var ids []uint64
 	schedh.Run(c, schedh.Opts{MaxSteps: 4000, NoAdvanceAlt: true}, func() {
 		for i := 0; i < p.n; i++ {
-			ids = append(ids, drive(store)) // the next checkpoint starts as soon as this one is complete
+			ids = append(ids, drive(store, i == spAt)) // the next checkpoint starts as soon as this one is complete
 			if cc := store.CurrentCheckpoint(); cc != nil {
 				curSeen = append(curSeen, cc.Id)
 			}
